@@ -29,6 +29,10 @@ pub struct GenCfg {
     pub root_only: bool,
     /// name pool of many different lengths (1..70 units) instead of the standard pool
     pub varied_lengths: bool,
+    /// only non-mutating calls (C13)
+    pub read_only: bool,
+    /// never vary the case of names in lookups (C19: builds without Unicode folding)
+    pub exact_case: bool,
 }
 
 impl Default for GenCfg {
@@ -50,6 +54,8 @@ impl Default for GenCfg {
             avoid: Vec::new(),
             root_only: false,
             varied_lengths: false,
+            read_only: false,
+            exact_case: false,
         }
     }
 }
@@ -118,6 +124,10 @@ impl RandomSource {
     }
 
     fn vary_case(&mut self, s: &str) -> String {
+        if self.cfg.exact_case {
+            let _ = self.rng.below(6);
+            return s.to_string();
+        }
         match self.rng.below(6) {
             0 => s.to_uppercase(),
             1 => s.to_lowercase(),
@@ -234,6 +244,45 @@ impl OpSource for RandomSource {
             return Some(Op::Stats);
         }
         let cs = geo.map_or(512, |g| g.cluster_size);
+        if self.cfg.read_only {
+            let fhs = Self::file_handles(m);
+            let k = self.rng.weighted(&[10, 8, 8, if fhs.is_empty() { 0 } else { 30 }, 4, 3, 3, 2]);
+            return Some(match k {
+                0 => {
+                    let (dir, path) = self.pick_path(m, true);
+                    Op::OpenFile { dir, path, slot: self.free_slot(m) }
+                }
+                1 => {
+                    let (dir, path) = self.pick_path(m, true);
+                    Op::OpenDir { dir, path, slot: self.free_slot(m) }
+                }
+                2 => {
+                    let mut refs = vec![DirRef::Root];
+                    for (i, h) in m.handles.iter().enumerate() {
+                        if let Some(MH::Dir { .. }) = h {
+                            refs.push(DirRef::H(i));
+                        }
+                    }
+                    Op::List { dir: refs[self.rng.usize_below(refs.len())].clone() }
+                }
+                3 => {
+                    let h = fhs[self.rng.usize_below(fhs.len())];
+                    let size = match &m.handles[h] {
+                        Some(MH::File { node, .. }) => m.nodes[*node].content.len() as u64,
+                        _ => 0,
+                    };
+                    match self.rng.below(3) {
+                        0 => Op::Seek { h, whence: 0, off: self.rng.below(size + 10) as i64 },
+                        1 => Op::Close { h },
+                        _ => Op::Read { h, len: self.len_choice(cs) },
+                    }
+                }
+                4 => Op::Stats,
+                5 => Op::StatusFlags,
+                6 => Op::Label,
+                _ => Op::Remount { how: self.rng.below(3) as u8 },
+            });
+        }
         let alive = m.count_alive();
         let fhs = Self::file_handles(m);
         let w_file = if fhs.is_empty() { self.cfg.w_file / 6 } else { self.cfg.w_file };
